@@ -37,3 +37,9 @@ package registry
 //@   requires app != nil && ctx != nil && state != nil && rt != nil
 //@   precall api\.MessageDispatcher\)\.Publish$ :: api.GPublishes != old(api.GPublishes) || (defined(stakeParams) && stakeParams != nil && (registry.RtHasAddr(rt) && !stakeParams.DebugBypassStake ==> stakingState.GClaim[registry.RtAddr(rt)][RtClaim(rt)] && (existingRt != nil && registry.RtHasAddr(existingRt) && registry.RtAddr(existingRt) != registry.RtAddr(rt) ==> !stakingState.GClaim[registry.RtAddr(existingRt)][RtClaim(rt)])))
 //@   note when the registration is announced to the other applications (first message published), the runtime's stake claim is recorded on the account that now owns the runtime and, if the owning account changed, no longer on the previous one: the recorded claims are exactly those implied by the registered runtimes
+
+//@ func Application.unfreezeNode
+//@   props C17
+//@   requires app != nil && ctx != nil && state != nil && unfreeze != nil
+//@   precall state\.MutableState\)\.SetNodeStatus$ :: api.Signer(ctx) == node.EntityID && argIs(1, node.ID) && argIs(2, status)
+//@   note a node's frozen status is reset only by a transaction signed by the entity that owns the node, and the status written back is the one loaded for that node
